@@ -8,10 +8,11 @@
 (***************************************************************************)
 EXTENDS HttpWireMC, Json, IOUtils
 
-CaseSeq == SetToSeq(Cases)
+\* single-entry cases first, then the multi-entry files
+CaseSeq == SetToSeq(Cases) \o SetToSeq(Files)
 ASSUME /\ ndJsonSerialize(IOEnv.VERIF_OUT, [i \in 1..Len(CaseSeq) |-> [id |-> i, c |-> CaseSeq[i]]])
        /\ PrintT(<<"VERIF", "cases", Len(CaseSeq)>>)
 \* TLC wants a behaviour specification: one dummy state
-GenInit == C = CaseSeq[1]
+GenInit == C = CHOOSE c \in Cases : TRUE
 GenNext == UNCHANGED C
 =============================================================================
